@@ -32,10 +32,13 @@ propagating exception (with its traceback) otherwise, and every exception is a `
 * `base`      — a `BaseException` that is *not* an `Exception` propagates (`KeyboardInterrupt`, `SystemExit`,
                 `GeneratorExit`, a user-defined `BaseException` subclass);
 * `cancelled` — `asyncio.CancelledError` (a `BaseException` since 3.8) raised at the suspension point at which the
-                task was parked when `task.cancel()` / `wait_for` / `timeout()` / a failing `TaskGroup` sibling hit it.
-`__aexit__` decides with `if not exc_tb: commit() else: rollback()`: every kind but `ok` rolls back. -/
+                task was parked when `task.cancel()` / `wait_for` / `timeout()` / a failing `TaskGroup` sibling hit it;
+* `falsy`     — an exception object (of whatever class) whose TRUTH VALUE is False propagates: its class defines `__bool__`
+                or `__len__` (an error-collection exception raised while empty); `exc_value` is falsy, `exc_tb` is not.
+`__aexit__` decides with `if not exc_tb: commit() else: rollback()` — never with the class or the truth value of
+`exc_value`: every kind but `ok` rolls back. -/
 inductive Leave where
-  | ok | error | base | cancelled
+  | ok | error | base | cancelled | falsy
   deriving DecidableEq, Repr
 
 /-- an exception (of whatever kind) is propagating: `exc_tb is not None` -/
